@@ -20,6 +20,7 @@ int ft_ncalls(int id);
 int ft_seen_after(int id);
 void ft_arm_atexit(void);
 int ft_is_waiting(int id);
+int ft_oneshot(int (*cb)(int, int), int pre, int xp, int *seen_after);
 void ft_set_callbacks(int (*on_idle)(int), int (*cb)(int, int));
 int count_tstates(void);
 int call_cb_from_here(int id, int arg, int kind);
@@ -113,6 +114,26 @@ static void ft_atexit_join(void)
 }
 void ft_arm_atexit(void) { static int armed; if (!armed) { armed = 1; atexit(ft_atexit_join); } }
 
+/* a thread whose FIRST (and only) contact with cffi is one errno-carrying callback */
+typedef struct { int (*cb)(int, int); int pre, xp, seen_after, result; } oneshot_t;
+static void *oneshot_main(void *p)
+{
+    oneshot_t *o = (oneshot_t *)p;
+    errno = o->pre;
+    o->result = o->xp ? xp_cb(-99, o->pre) : o->cb(-99, o->pre);
+    o->seen_after = errno;
+    return NULL;
+}
+int ft_oneshot(int (*cb)(int, int), int pre, int xp, int *seen_after)
+{
+    pthread_t t; oneshot_t o;
+    o.cb = cb; o.pre = pre; o.xp = xp; o.seen_after = -1; o.result = -1;
+    if (pthread_create(&t, NULL, oneshot_main, &o) != 0) return -2;
+    pthread_join(t, NULL);
+    *seen_after = o.seen_after;
+    return o.result;
+}
+
 /* number of PyThreadStates of the current interpreter (declared by hand: the generated
    module is compiled with Py_LIMITED_API) */
 PyAPI_FUNC(PyInterpreterState *) PyInterpreterState_Get(void);
@@ -180,6 +201,7 @@ class Driver(object):
             return drv.body(who, arg)
 
         self._keep = (on_idle, cb)
+        self.cb = cb
         self.lib.ft_set_callbacks(on_idle, cb)
 
     # ---- runs in the foreign thread ----
